@@ -337,7 +337,9 @@ func (o *structFieldsCBOR) FromCBOR(dm cbor.DecMode, data []byte) error {
 	}
 
 	if !indefinite {
-		o.Fields = make(map[int]cbor.RawMessage, mapLen)
+		// not pre-sized: mapLen is chosen by the sender and need not
+		// be backed by any data
+		o.Fields = make(map[int]cbor.RawMessage)
 
 		for i := 0; i < mapLen; i++ {
 			rest, err = o.unmarshalKeyValue(dm, rest)
